@@ -310,6 +310,23 @@ func propC16(r *Run) {
 				}
 				ents = append(ents, genEntry{full, kind})
 			}
+			if r.Choose("large-directory", 25) == 0 {
+				// more entries than any plausible read batch: the rule is about the whole directory
+				nf := 250 + r.Choose("nfiller", 300)
+				line := RefWrite(def, "filler", make([]byte, def.SaltLen()), 12345) + "\n"
+				for i := 0; i < nf; i++ {
+					full := fmt.Sprintf("filler%03d.user", i)
+					w.fs.Put(w.base()+"/"+full, []byte(line), 0o600)
+					ents = append(ents, genEntry{full, "supported"})
+				}
+				if r.Choose("large-dir-duplicate", 2) == 1 {
+					for _, full := range []string{"zz-both.user", "zz-both.admin"} {
+						w.fs.Put(w.base()+"/"+full, []byte(line), 0o600)
+						ents = append(ents, genEntry{full, "supported"})
+					}
+				}
+				r.Count("probe:directories-with-hundreds-of-entries")
+			}
 			tmpKind := r.Choose("tmpkind", 3) // absent, dir, dir with residue
 			if tmpKind >= 1 {
 				w.fs.PutDir(w.base()+"/.tmp", 0o700)
@@ -329,13 +346,13 @@ func propC16(r *Run) {
 			for rep := 0; rep < 3; rep++ { // several directory iteration orders
 				w.guard("check", func() { got = d.Check() })
 				if (got == nil) != (want == nil) {
-					r.Fail("check/inexact", "Check = %v, the rule says %v for entries %v (tmp=%d readable=%v)", got, want, ents, tmpKind, readable)
+					r.Fail("check/inexact", "Check = %v, the rule says %v for %d entries %v (tmp=%d readable=%v)", got, want, len(ents), ents[:min(len(ents), 12)], tmpKind, readable)
 				}
 			}
 			if w.fs.Mutations != 0 {
 				r.FailOther("C15", "read-only/check/mutated", "check mutated the file system")
 			}
-			r.Nontrivial(fmt.Sprintf("%v|%d|%v", ents, tmpKind, readable))
+			r.Nontrivial(fmt.Sprintf("%v|%d|%d|%v", ents[:min(len(ents), 12)], len(ents), tmpKind, readable))
 			// init: succeeds only on an empty directory (ignoring .tmp) and yields a valid store
 			empty := len(ents) == 0
 			var ierr error
